@@ -227,6 +227,12 @@ macro_rules! spell_type {
                 }; }
                 fp!(from_i8, i8); fp!(from_u8, u8); fp!(from_i16, i16); fp!(from_u16, u16);
                 fp!(from_i32, i32); fp!(from_u32, u32); fp!(from_i64, i64); fp!(from_u64, u64);
+                // the remaining FromPrimitive entry points (trait defaults unless the crate overrides them): inside the 64-bit
+                // range they must be the 64-bit conversion
+                chk(agree(|| <P as FromPrimitive>::from_u128(w as u128).map(|q| q.to_bits()), || Some(P::from_u64(w).to_bits())));
+                chk(agree(|| <P as FromPrimitive>::from_i128(w as i64 as i128).map(|q| q.to_bits()), || Some(P::from_i64(w as i64).to_bits())));
+                chk(agree(|| <P as FromPrimitive>::from_usize(w as usize).map(|q| q.to_bits()), || Some(P::from_u64(w).to_bits())));
+                chk(agree(|| <P as FromPrimitive>::from_isize(w as isize).map(|q| q.to_bits()), || Some(P::from_i64(w as i64).to_bits())));
                 chk(agree(|| <P as From<isize>>::from(w as isize).to_bits(), || P::from_isize(w as isize).to_bits()));
                 chk(agree(|| <P as From<usize>>::from(w as usize).to_bits(), || P::from_usize(w as usize).to_bits()));
                 chk(agree(|| P::from_i8(w as i8).to_bits(), || P::from_i32(w as i8 as i32).to_bits()));
@@ -279,6 +285,45 @@ macro_rules! spell_type {
                         ok &= agree(|| <P as Num>::from_str_radix(&st, r).ok().map(|q| q.to_bits() as u32), || viaf(&st, r));
                     }
                     Out { ok, nt: true, got: !ok as u128, want: 0, ops: 10, panicked: false }
+                }));
+            }
+            // every short string over the characters a number, a name or a typo can contain, in radices on both sides
+            // of the points where letters become digits
+            {
+                const CH: &[u8] = b"0123456789abcdefghijklmnopqrstuvwxyzABCDEFGHIJKLMNOPQRSTUVWXYZ.-+_ ";
+                const RAD: [u32; 8] = [2, 8, 10, 16, 23, 28, 35, 36];
+                const NAMES: [&str; 16] = ["NaN", "nan", "NAN", "inf", "-inf", "+inf", "infinity", "Infinity", "NaR", "nar", "-NaR", "+NaR", "NAR", "1e5", "1E-3", "z.z"];
+                let nc = CH.len() as u64;
+                let nstr = 1 + nc + nc * nc + nc * nc * nc + NAMES.len() as u64;
+                v.push(CellDef::new("C17", format!("{}/from_str_radix#strings", name), Space::func(nstr * RAD.len() as u64, format!("every string of length <= 3 over {} characters (digits, letters of both cases, . - + _ space) and {} names, in radix 2, 8, 10, 16, 23, 28, 35, 36", nc, NAMES.len()), |i| i as u128), move |k| {
+                    let i = k as u64;
+                    let r = RAD[(i % RAD.len() as u64) as usize];
+                    let mut j = i / RAD.len() as u64;
+                    let st: String = if j >= nstr - NAMES.len() as u64 {
+                        NAMES[(j - (nstr - NAMES.len() as u64)) as usize].to_string()
+                    } else {
+                        // length-prefixed enumeration: 0 -> "", then lengths 1, 2, 3
+                        let mut len = 0;
+                        let mut block = 1u64;
+                        while j >= block {
+                            j -= block;
+                            block *= nc;
+                            len += 1;
+                        }
+                        let mut b = vec![0u8; len];
+                        for t in (0..len).rev() {
+                            b[t] = CH[(j % nc) as usize];
+                            j /= nc;
+                        }
+                        String::from_utf8(b).unwrap()
+                    };
+                    // Option<Option<bits>>: outer = did not panic, inner = Ok
+                    let a = guard(|| <P as Num>::from_str_radix(&st, r).ok().map(|q| q.to_bits() as u32));
+                    let b = guard(|| <f64 as Num>::from_str_radix(&st, r).ok().map(|f| P::from_f64(f).to_bits() as u32));
+                    // both unwinding (num-traits rejects some radices by panicking) is agreement
+                    let ok = a == b;
+                    let enc = |x: Option<Option<u32>>| -> u128 { match x { None => 2 << 32, Some(None) => 1 << 32, Some(Some(v)) => v as u128 } };
+                    Out { ok, nt: matches!(b, Some(Some(_))), got: enc(a), want: enc(b), ops: 2, panicked: false }
                 }));
             }
             let _ = (n, es);
